@@ -11,6 +11,7 @@ import (
 	"encoding/hex"
 	"fmt"
 	"hash/fnv"
+	"os"
 	"strconv"
 	"strings"
 	"sync/atomic"
@@ -27,6 +28,18 @@ import (
 func vStartSingleNode(t testing.TB, id string, port int, tweak func(*Config)) *Server {
 	config := getTestConfig(id, true, port)
 	config.CursorsStream.Partitions = 0
+	// own embedded NATS port (gRPC port + 1000), so that harnesses of different properties
+	// can run at the same time
+	natsPort := port + 1000
+	nf, err := os.CreateTemp("", "verif-nats-*.conf")
+	if err != nil {
+		t.Fatal(err)
+	}
+	fmt.Fprintf(nf, "host: 127.0.0.1\nport: %d\n", natsPort)
+	nf.Close()
+	t.Cleanup(func() { os.Remove(nf.Name()) })
+	config.EmbeddedNATSConfig = nf.Name()
+	config.NATS.Servers = []string{fmt.Sprintf("nats://127.0.0.1:%d", natsPort)}
 	if tweak != nil {
 		tweak(config)
 	}
